@@ -456,6 +456,37 @@ func ruleFunnelOnce(r *Run) {
 			}
 		}
 	}
+	// every message taken from the connection is handed to the scheduler: that is the only way into the
+	// main loop, where the idle timer is re-armed — a message answered on the side does not count as activity
+	if rf := r.modelFunc("websocket.(*handler).startReceiving"); rf != nil {
+		rpaths := r.Paths(rf)
+		nRecv := 0
+		for pi := range rpaths {
+			path := &rpaths[pi]
+			r.at(path)
+			for i, ev := range path.Events {
+				if ev.Kind != EvCall || ev.Call == nil || r.P.Canon(ev.Fn, ev.Call.Fun) != "recv.receiver" {
+					continue
+				}
+				nRecv++
+				dispatched, failed := false, false
+				for j := i + 1; j < len(path.Events); j++ {
+					pe := path.Events[j]
+					if pe.Kind == EvCall {
+						if f, ok := pe.Callee.(*types.Func); ok && f.Name() == "Dispatch" && f.Pkg() != nil && f.Pkg().Path() == pkgHCWS {
+							dispatched = true
+						}
+						if pe.Callee == disc {
+							failed = true
+						}
+					}
+				}
+				r.CheckT("G5", rf.Name+":every-message-dispatched", dispatched || failed, ev.Pos, path,
+					"a message read from the connection is neither handed to the scheduler nor reported as a failure on this path: it does not reach the main loop, so it does not count as activity (a client that keeps sending it is disconnected as idle) and is handled outside the per-connection order")
+			}
+		}
+		r.Floor("G5", "receive sites in the receiving loop", nRecv, 1)
+	}
 	r.Check("G5", handle.Name+":idle-arm", nIdle >= 1 && nMsg >= 1, handle.Body.Pos(), "the main loop has a message arm and an idle-timer arm armed with the handler's idle timeout")
 	// connection closure and summary worker
 	if main := r.modelFunc("cmd.main"); main != nil {
